@@ -68,6 +68,9 @@ def translated_enabled():
         return any(f.get('id') == OFFSET_FINDING for f in json.load(open(os.path.join(root, 'known_findings.json'))))
     except Exception:
         return False
+# in-place public DataSet methods the CALLER applies to a data set AFTER having passed it to the classifier
+CALLER_MUTATIONS = ['remove_labels', 'remove_labels_all', 'shuffle', 'remove_samples', 'revert_scaling', 'scale_range', 'scale_factor', 'shift_value',
+                    'move_boundaries_to_front', 'set_label']
 ARRAY_LAYOUTS = ['slice', 'F', 'f32', 'strided', 'colslice', 'i32labels']
 PERCENTAGES = [1.0, 0.5, 0.75, 0.8, 0.8, 0.9, 0.7, 0.625, 0.875, 0.25, 1, 0.0, 1.5]
 
@@ -252,6 +255,20 @@ def gen_case(rng, tier, idx, big=False, gate=None):
         elif P and rng.random() < 0.3:
             op.append(rng.choice(ARRAY_LAYOUTS))                       # how the numpy arrays handed to DataSet are laid out
         ops.append(op)
+    # the caller keeps USING the objects it passed: after a call/test_data step (probability 0.4) one in-place public DataSet method is applied to
+    # the data set that was passed, then the observers are called (evaluate / get_testing_data / calculated classes): value semantics required
+    newops, remap = [], {}
+    for j_, o_ in enumerate(ops):
+        if o_[0] in ('call', 'test') and len(o_) > 3 and o_[3] in ('reuse', 'rewrap'):
+            o_ = [o_[0], remap.get(o_[1], o_[1])] + list(o_[2:])
+        elif o_[0] == 'other':
+            o_ = ['other', remap.get(o_[1], o_[1])]
+        remap[j_] = len(newops)
+        newops.append(o_)
+        if o_[0] in ('call', 'test') and rng.random() < (0.4 if o_[0] == 'test' else 0.25):
+            newops.append(['mutate', remap[j_], rng.choice(CALLER_MUTATIONS)])
+    ops = newops
+    cfg['mutate_learning_data'] = rng.choice(CALLER_MUTATIONS) if rng.random() < 0.4 else None
     return dict(seed=rng.randrange(1 << 30), X=X, y=y, labels=labels, cfg=cfg, data_range=data_range, ops=ops,
                 kind='big' if big else 'random', label_axis=label_axis)
 
@@ -358,6 +375,40 @@ def _ref_density(combi, de, pts):
             val = np.sum(val.reshape(len(pts), len(nodes[d]), -1) * H[d][:, :, None], axis=1)
         total += float(g.coefficient) * val.reshape(len(pts))
     return total
+
+
+def _caller_mutates(d, how):
+    """one in-place public DataSet method applied by the caller to its own data set; the numpy RNG state is kept"""
+    import numpy as np
+    st = np.random.get_state()
+    try:
+        if how == 'remove_labels':
+            d.remove_labels(0.5)
+        elif how == 'remove_labels_all':
+            d.remove_labels(1.0)
+        elif how == 'shuffle':
+            d.shuffle()
+        elif how == 'remove_samples':
+            d.remove_samples([0] if d.get_length() > 0 else [])
+        elif how == 'revert_scaling':
+            d.revert_scaling()
+        elif how == 'scale_range':
+            d.scale_range((0.0, 1.0), override_scaling=True)
+        elif how == 'scale_factor':
+            d.scale_factor(2.0, override_scaling=True)
+        elif how == 'shift_value':
+            d.shift_value(0.25, override_scaling=False)
+        elif how == 'move_boundaries_to_front':
+            d.move_boundaries_to_front()
+        elif how == 'set_label':
+            d.set_label('other')
+        return None
+    except CaseTimeout:
+        raise
+    except Exception as e:
+        return (type(e).__name__, str(e)[:80])
+    finally:
+        np.random.set_state(st)
 
 
 def _dens(classificators, pts):
@@ -559,6 +610,15 @@ def impl_run(case):
         return out
     out['learn_exc'] = None
     check_args(out['viol'], 'perform_classification')
+    if cfg.get('mutate_learning_data'):
+        # the caller goes on using the data set it built the classifier from: nothing held by the classifier may change
+        l0, t0 = c18.snap(clf.get_learning_data()), c18.snap(clf.get_testing_data())
+        out['mutate_learning_exc'] = _caller_mutates(data, cfg['mutate_learning_data'])
+        l1, t1 = c18.snap(clf.get_learning_data()), c18.snap(clf.get_testing_data())
+        if l0 != l1 or t0 != t1 or [float(v) for v in clf.get_dataset_range()[0]] != mn0 or [float(v) for v in clf.get_scale_factor()] != fac0:
+            out['viol'].append(dict(kind='caller-mutation-reaches-classifier', sig=dict(method=cfg['mutate_learning_data'], object='learning data set'),
+                                    why='%s() on the data set the classifier was built from changed the learning/testing data or the scaling held by the classifier' % cfg['mutate_learning_data']))
+        check_args(out['viol'], 'DataSet.%s (caller)' % cfg['mutate_learning_data'])
     cls, des = clf.get_density_estimation_results()
     cls = list(cls)
     out['nclass'] = len(cls)
@@ -689,6 +749,40 @@ def impl_run(case):
             ent['calc'] = [int(c) for c in clf.get_calculated_classes_testset()]
             if ent['calc'] != prev_calc:
                 ent['viol'].append(dict(kind='earlier-classes-changed', sig=dict(call='other-classifier'), why='another Classification object changed our calculated classes'))
+            continue
+        if op[0] == 'mutate':
+            dm = objs.get(op[1])
+            if dm is None:
+                ent['skipped'] = 1
+                ent['calc'] = list(prev_calc)
+                continue
+            ent['mutation_exc'] = _caller_mutates(dm, op[2])
+            origin[op[1]] = None
+            state_of[op[1]] = 'mutated-by-caller'
+            ent['calc'] = [int(c) for c in clf.get_calculated_classes_testset()]
+            tsn = c18.snap(clf.get_testing_data())
+            why = []
+            if ent['calc'] != prev_calc:
+                why.append('the calculated classes changed')
+            if tsn[0] != prev_test[0] or tsn[1] != prev_test[1]:
+                why.append('the testing data held by the classifier changed (labels %r -> %r)' % (prev_test[1][:12], tsn[1][:12]))
+            if prev_test[0] and len(prev_calc) == len(prev_test[0]):
+                # the summary must be the one of the classes returned earlier and the labels the data had WHEN THEY WERE PASSED
+                wrong = sum(1 for a, b in zip(prev_test[1], prev_calc) if a != b)
+                try:
+                    ev = clf.evaluate()
+                    got = [int(ev['Wrong mappings']), int(ev['Total mappings'])]
+                    if got != [wrong, len(prev_calc)]:
+                        why.append('evaluate() = wrong %d / total %d, the classes returned earlier and the labels passed give wrong %d / total %d' % (got[0], got[1], wrong, len(prev_calc)))
+                except CaseTimeout:
+                    raise
+                except Exception as e:
+                    why.append('evaluate() raises %s: %s' % (type(e).__name__, str(e)[:80]))
+            if why:
+                ent['viol'].append(dict(kind='caller-mutation-reaches-classifier', sig=dict(method=op[2], object='data set passed to an earlier call'),
+                                        why='after the caller applied %s() to the data set it had passed in step %d: %s' % (op[2], op[1], '; '.join(why))))
+                ent['stop'] = 1
+                break
             continue
         if op[0] == 'relearn':
             # "This method is only called once": a second learning run must raise and leave everything as it is
@@ -1030,7 +1124,7 @@ def model_case(case, r, variant):
     rg = case.get('data_range')
     ops = []
     for op, ent in zip(case['ops'], r['ops']):
-        if op[0] in ('decoy', 'relearn', 'tamper', 'other') or ent.get('skipped'):
+        if op[0] in ('decoy', 'relearn', 'tamper', 'other', 'mutate') or ent.get('skipped'):
             continue
         if op[0] == 'evaluate':
             ops.append([3])
@@ -1049,7 +1143,7 @@ def model_case(case, r, variant):
 
 def model_ops_index(case, r):
     """indices of the ops that are sent to the model, in order"""
-    return [j for j, (op, ent) in enumerate(zip(case['ops'], r['ops'])) if not (op[0] in ('decoy', 'relearn', 'tamper', 'other') or ent.get('skipped'))]
+    return [j for j, (op, ent) in enumerate(zip(case['ops'], r['ops'])) if not (op[0] in ('decoy', 'relearn', 'tamper', 'other', 'mutate') or ent.get('skipped'))]
 
 
 def msorted(s):
@@ -1171,6 +1265,12 @@ PRINT_CASE = dict(seed=8, kind='corpus', name='test-data-print-incorrect-points'
                   cfg=dict(_CFG, split_percentage=1.0, print_tests=True),
                   ops=[['test', [[0.25, 0.25], [2.0, 1.75], [0.125, 0.25]], [-1, 1, 1], 'inside'], ['evaluate']])
 CORPUS.append(PRINT_CASE)
+# the caller keeps using the data sets it passed (no internal test split: the first tested set becomes the testing data)
+for _k, _how in enumerate(['remove_labels_all', 'shuffle', 'remove_samples', 'revert_scaling']):
+    CORPUS.append(dict(seed=20 + _k, kind='corpus', name='caller-mutates-passed-data-set-' + _how, labels=[0, 1], X=_X10, y=_two(0, 1), data_range=None,
+                       cfg=dict(_CFG, split_percentage=1.0, mutate_learning_data=_how),
+                       ops=[['test', [[0.25, 0.25], [2.0, 1.75], [0.125, 0.5], [2.25, 2.0]], [0, 1, 1, 1], 'inside'], ['mutate', 0, _how], ['evaluate'],
+                            ['test', [[0.5, 0.25], [1.75, 2.0]], [0, 0], 'inside'], ['mutate', 3, 'remove_labels'], ['evaluate'], ['mutate', 0, 'shuffle'], ['evaluate']]))
 
 # exemplar of the finding about the shallow copies handed out by the getters (runs only once the finding is registered, see tamper_enabled)
 TAMPER_CASE = dict(seed=7, kind='corpus', name='getter-copy-aliases-testing-data', labels=[0, 1], X=_X10, y=_two(0, 1), data_range=None,
@@ -1265,6 +1365,8 @@ def judge(chk, cases, impl, variant):
                 chk.count('option:%s' % flag)
         if cfg.get('parent_array'):
             chk.count('option:parent_array')
+        if cfg.get('mutate_learning_data'):
+            chk.count('caller-mutation-of-learning-data-set=%s' % cfg['mutate_learning_data'])
         chk.count('option:lambd=%r' % cfg['lambd'])
         if cfg['learner'] == 'dw':
             for k_, v_ in sorted(cfg.get('dw', {}).items()):
@@ -1277,6 +1379,8 @@ def judge(chk, cases, impl, variant):
         for j, ent in enumerate(r['ops']):
             o = c['ops'][j]
             chk.count('op=%s' % ent['op'] + ('/' + o[3] if ent['op'] in ('call', 'test') else ''))
+            if ent['op'] == 'mutate' and not ent.get('skipped'):
+                chk.count('caller-mutation=%s%s' % (o[2], '/raises' if ent.get('mutation_exc') else ''))
             if ent.get('array'):
                 chk.count('array=' + ent['array'])
             if ent.get('input_scaling'):
